@@ -187,6 +187,10 @@ def build(defn, rng=None, style=None, sform="list", pform="list", backend="lambd
     for key in ("event", "transition", "birth_death", "ode"):
         if ctor[key]:
             kw[key] = ctor[key]
+            # a single birth / death process or explicit equation may be handed over without its enclosing list (transition=
+            # and event= insist on a list)
+            if key in ("birth_death", "ode") and len(ctor[key]) == 1 and rng is not None and rng.random() < 0.35:
+                kw[key] = ctor[key][0]
     if derived:
         kw["derived_param"] = derived
     m = SimulateOde(state=state_decl(defn, sform), param=param_decl(defn, pform), **kw)
